@@ -63,7 +63,8 @@ func c05Run(cs *c05Case, py *pyRef) {
 	sort.Slice(cs.EA, func(i, j int) bool { return cs.EA[i].Name < cs.EA[j].Name })
 	sort.Slice(cs.EB, func(i, j int) bool { return cs.EB[i].Name < cs.EB[j].Name })
 	// local copy of A
-	local := world.Consumable(nil)
+	local, cleanup := world.LocalDir() // files are written leaf by leaf with concurrent WriteAt
+	defer cleanup()
 	bA := core.NewBundle(core.Repo("repo"), core.ContextStores(w.Stores()), core.BundleID(idA), core.ConsumableStore(local), core.Logger(world.Nop))
 	if err := core.Publish(context.Background(), bA); err != nil {
 		panic(err)
